@@ -853,15 +853,97 @@ Proof.
 Qed.
 (* the step in which the predicate throws changes neither map and leads to the unwinding pc;
    the next step of that thread releases the mutex and lets the exception leave *)
+Definition is_throw (e : ev) : bool := ek e =? K_THROW.
+Lemma fault_evs_nothrow code ok : existsb is_throw (fault_evs code ok) = false.
+Proof. destruct ok; reflexivity. Qed.
 Lemma throw_step t c g l g' l' es : tstep t c g l = Some (g', l', es) ->
-  existsb (fun e => ek e =? K_THROW) es = true ->
+  existsb is_throw es = true ->
   omap g' = omap g /\ tmap g' = tmap g /\ exists o, at_ l' = XUnlock o.
 Proof.
   intros Hs He. destruct l as [pr p sl hd].
   step_cases Hs; cbn [omap tmap at_]; try (split; [reflexivity|split; [reflexivity|eauto]]; fail);
-    exfalso; repeat (rewrite ?existsb_app in He; cbn [existsb ek E app] in He);
-    repeat match goal with |- context [fault_evs ?a ?b] => destruct b end;
-    repeat match type of He with context [fault_evs ?a ?b] => destruct b end; cbn in He; discriminate.
+    exfalso; repeat (rewrite ?existsb_app, ?fault_evs_nothrow in He; cbn [existsb is_throw ek E app] in He);
+    cbn in He; discriminate.
 Qed.
 Lemma top_level_owns_nothing th progs s u : R th progs s -> holds (pcof (thr s) u) = false -> mtx (gl s) <> Some u.
 Proof. intros HR Hh Hm. rewrite (I_held _ _ (R_inv _ _ _ HR) u Hm) in Hh. discriminate. Qed.
+
+(* ====================================================================== *)
+(* E. progress                                                             *)
+(* ====================================================================== *)
+(* the owner of the mutex can always take its next step: nothing inside a section waits *)
+Lemma holder_enabled th progs s a c : R th progs s -> mtx (gl s) = Some a -> enabledS s a c.
+Proof.
+  intros HR Hm. pose proof (R_inv _ _ _ HR) as HI.
+  pose proof (I_held _ _ HI a Hm) as Hh. unfold pcof, lof in Hh.
+  destruct (nth_error (thr s) a) as [l|] eqn:Hl.
+  - rewrite (nth_error_nth _ _ _ Hl) in Hh.
+    assert (exists r, tstep a c (gl s) l = Some r) as [r Hr]; [|exists l, r; auto].
+    destruct l as [pr p sl hd]. cbn [at_] in Hh. unfold tstep, tstep_gen. cbn [at_ prog slots held].
+    destruct p; try discriminate.
+    + destruct (lookup k (omap (gl s))); [|eexists; reflexivity].
+      destruct (memZ (calls (gl s)) (throws (gl s))); [eexists; reflexivity|].
+      destruct (ptest o (tmap (gl s)) k p); [|eexists; reflexivity].
+      destruct (is_rem o).
+      * destruct (rc_dec (heap (gl s)) (pid p)). eexists; reflexivity.
+      * destruct (rc_inc (heap (gl s)) (pid p)). eexists; reflexivity.
+    + destruct (dst_slot o); [|eexists; reflexivity].
+      destruct (dec_opt (heap (gl s)) (slot {| prog := pr; at_ := Unlock o a0 r; slots := sl; held := hd |} b)). eexists; reflexivity.
+    + eexists; reflexivity.
+  - rewrite nth_overflow in Hh by (apply nth_error_None; exact Hl). discriminate.
+Qed.
+
+(* a thread is disabled only when it has finished, or when it waits for the mutex, which then has
+   an owner other than itself, and that owner can move *)
+Lemma blocks_only_on_mutex th progs s t c l :
+  R th progs s -> nth_error (thr s) t = Some l -> tstep t c (gl s) l = None ->
+  fin l = true \/
+  ((exists o, at_ l = SLock o) \/ (exists o, at_ l = PLock o)) /\
+  exists a, mtx (gl s) = Some a /\ a <> t /\ enabledS s a 0.
+Proof.
+  intros HR Hl Hs. pose proof (R_inv _ _ _ HR) as HI.
+  assert (Hown : forall a, mtx (gl s) = Some a -> holds (at_ l) = false -> a <> t).
+  { intros a Hm Hh ->. pose proof (I_held _ _ HI t Hm) as E. rewrite (pcof_at _ _ _ Hl) in E. congruence. }
+  destruct l as [pr p sl hd]. unfold tstep, tstep_gen, set_hf in Hs. cbn [at_ prog slots held] in *.
+  destruct p.
+  - destruct pr as [|o r]; [left; reflexivity|exfalso].
+    destruct o as [so|po|[b|b]]; try discriminate.
+    + destruct (new_arg so); discriminate.
+    + destruct (dec_opt (heap (gl s)) (slot {| prog := OL (Drop b) :: r; at_ := Idle; slots := sl; held := hd |} b)); discriminate.
+    + destruct (slot {| prog := OL (ReadObj b) :: r; at_ := Idle; slots := sl; held := hd |} b); discriminate.
+  - right. split; [left; eauto|]. destruct (mtx (gl s)) as [a|] eqn:Hm.
+    + exists a. repeat split; auto. eapply holder_enabled; eauto.
+    + exfalso. destruct (apply_sop o _ _ _) as [[[? ?] ?] ?]. destruct (sop_rc _ _ _ _ _) as [[? ?] ?]. discriminate.
+  - right. split; [right; eauto|]. destruct (mtx (gl s)) as [a|] eqn:Hm.
+    + exists a. repeat split; auto. eapply holder_enabled; eauto.
+    + discriminate.
+  - exfalso. destruct (lookup k (omap (gl s))); [|discriminate].
+    destruct (memZ (calls (gl s)) (throws (gl s))); [discriminate|].
+    destruct (ptest o (tmap (gl s)) k p); [|discriminate].
+    destruct (is_rem o).
+    + destruct (rc_dec (heap (gl s)) (pid p)). discriminate.
+    + destruct (rc_inc (heap (gl s)) (pid p)). discriminate.
+  - exfalso. destruct (dst_slot o); [|discriminate].
+    destruct (dec_opt _ _). discriminate.
+  - discriminate.
+Qed.
+
+(* no deadlock: a state in which nothing can move is one in which every program has finished *)
+Lemma quiescent_all_finished th progs s : R th progs s -> quiescentS s -> all_fin glob loc fin s = true.
+Proof.
+  intros HR HQ. unfold all_fin. apply forallb_forall. intros l Hin.
+  apply In_nth_error in Hin. destruct Hin as [t Hl].
+  destruct (tstep t 0 (gl s) l) as [r|] eqn:Hs.
+  - exfalso. apply (HQ t 0%nat); [lia|]. exists l, r. auto.
+  - destruct (blocks_only_on_mutex _ _ _ _ _ _ HR Hl Hs) as [Hf|[_ [a [_ [_ Hen]]]]]; [exact Hf|].
+    exfalso. apply (HQ a 0%nat); [lia|exact Hen].
+Qed.
+
+(* ====================================================================== *)
+(* F. the pre-repair order of removeObject(predicate)                      *)
+(* ====================================================================== *)
+Definition witness_progs : list (list op) := [[OS (AddT 0 0 0); OP (RemPred 0)]].
+Definition witness_sched : list (nat * nat) := repeat (0%nat, 0%nat) 6.
+Lemma unfixed_faults :
+  exists progs sched, faulted (gl (run glob loc (tstep_gen true) (init [] progs) sched)) = true.
+Proof. exists witness_progs, witness_sched. vm_compute. reflexivity. Qed.
